@@ -69,6 +69,45 @@ func c12Decision(c *Ctx, p *Prog, m *Model) {
 		return
 	}
 	lvl := term.Params[lvlIdx]
+	// helpers the termination tail may have been moved into: in-package, not on the spine, able to terminate
+	canTerminate := map[*ssa.Function]bool{}
+	for _, fn := range p.RepoFuncs() {
+		if fn.Pkg != p.Slog || m.Spine[fn] {
+			continue
+		}
+		for _, b := range fn.Blocks {
+			for _, in := range b.Instrs {
+				switch x := in.(type) {
+				case *ssa.Panic:
+					canTerminate[fn] = true
+				case ssa.CallInstruction:
+					if cal := calleeOf(x); cal != nil && cal.String() == "os.Exit" {
+						canTerminate[fn] = true
+					}
+				}
+			}
+		}
+	}
+	subst := map[ssa.Value]ssa.Value{}
+	res := func(v ssa.Value) ssa.Value {
+		v = strip(v)
+		for i := 0; i < 6; i++ {
+			w, ok := subst[v]
+			if !ok {
+				break
+			}
+			v = strip(w)
+		}
+		return v
+	}
+	inline := func(cs ssa.CallInstruction) *ssa.Function {
+		if cal := calleeOf(cs); cal != nil && canTerminate[cal] {
+			if _, isCall := cs.(*ssa.Call); isCall {
+				return cal
+			}
+		}
+		return nil
+	}
 	flagName := func(v ssa.Value) string {
 		cv, ok := constInt(v)
 		if !ok {
@@ -84,7 +123,7 @@ func c12Decision(c *Ctx, p *Prog, m *Model) {
 	namer := func(cond ssa.Value) string {
 		switch x := cond.(type) {
 		case *ssa.BinOp:
-			if (x.Op == token.EQL || x.Op == token.NEQ) && strip(x.X) == ssa.Value(lvl) {
+			if (x.Op == token.EQL || x.Op == token.NEQ) && res(x.X) == ssa.Value(lvl) {
 				if cv, ok := constInt(x.Y); ok {
 					n := "lvl==" + m.LevelByVal[cv]
 					if x.Op == token.NEQ {
@@ -146,6 +185,20 @@ func c12Decision(c *Ctx, p *Prog, m *Model) {
 		}
 	}
 	collect(term, 0)
+	for _, cs := range callsIn(term) {
+		if cal := inline(cs); cal != nil {
+			for _, prm := range cal.Params {
+				_ = prm
+			}
+			// bind parameters for naming while collecting
+			for i, prm := range cal.Params {
+				if i < len(cs.Common().Args) {
+					subst[prm] = cs.Common().Args[i]
+				}
+			}
+			collect(cal, 0)
+		}
+	}
 	// make sure the spec atoms exist
 	specAtoms := []string{"global:inTesting", "any:Linterruptalways", "all:LnoInterrupt", "lvl==PanicLevel", "lvl==FatalLevel"}
 	for _, a := range specAtoms {
@@ -166,7 +219,10 @@ func c12Decision(c *Ctx, p *Prog, m *Model) {
 	asg := assignments(atoms, consistent)
 	seenSpecRows := map[string]bool{}
 	for _, a := range asg {
-		t := walkDecision(term.Blocks[0], a, func(cond ssa.Value) (string, bool) {
+		for k := range subst {
+			delete(subst, k)
+		}
+		t := walkDecisionInl(term.Blocks[0], a, func(cond ssa.Value) (string, bool) {
 			n := namer(cond)
 			if strings.HasPrefix(n, "!") {
 				a["¬"+n[1:]] = !a[n[1:]]
@@ -192,7 +248,7 @@ func c12Decision(c *Ctx, p *Prog, m *Model) {
 				}
 			}
 			return "", false
-		})
+		}, inline, subst, 0)
 		for k := range a {
 			if strings.HasPrefix(k, "¬") {
 				delete(a, k)
@@ -201,7 +257,7 @@ func c12Decision(c *Ctx, p *Prog, m *Model) {
 		got := t.Kind
 		switch {
 		case t.Kind == "panic":
-			if strip(t.Instr.(*ssa.Panic).X) == ssa.Value(msgParam) {
+			if res(t.Instr.(*ssa.Panic).X) == ssa.Value(msgParam) {
 				got = "panic(msg)"
 			} else {
 				got = "panic(" + panicMsg(t.Instr.(*ssa.Panic)) + ")"
@@ -301,6 +357,8 @@ func c12Others(c *Ctx, p *Prog, m *Model) {
 				} else if m.Spine[fn] && cal.String() == "os.Exit" {
 					// role-based: accept the one spine function decided by R12.1
 					r.Ok("R12.4", key, p.Pos(instrPos(cs)), "exit site on the emission spine (decided by R12.1)")
+				} else if cal.String() == "os.Exit" && onlyCalledFromSpineTail(m, fn) {
+					r.Ok("R12.4", key, p.Pos(instrPos(cs)), "exit site in a helper called only from the emission spine; its decision function is inlined and decided by R12.1")
 				} else {
 					r.Bad("R12.4", key, p.Pos(instrPos(cs)), "%s is called from %s: a call of another severity/origin can terminate the process", cal.String(), shortName(fn))
 				}
@@ -317,7 +375,7 @@ func c12Others(c *Ctx, p *Prog, m *Model) {
 			if !ok {
 				continue
 			}
-			if shortName(fn) == "Entry.logContext" {
+			if shortName(fn) == "Entry.logContext" || onlyCalledFromSpineTail(m, fn) {
 				continue
 			}
 			for _, g := range guardsOf(b) {
@@ -431,4 +489,19 @@ func c12Mapping(c *Ctx, p *Prog, m *Model) {
 			}
 		}
 	}
+}
+
+// onlyCalledFromSpineTail: fn is a private helper whose only callers are functions of the emission spine that carry the
+// record's severity (so that R12.1 inlines and decides it).
+func onlyCalledFromSpineTail(m *Model, fn *ssa.Function) bool {
+	if token.IsExported(fn.Name()) || len(m.Callers[fn]) == 0 {
+		return false
+	}
+	for _, cs := range m.Callers[fn] {
+		par := cs.Parent()
+		if !m.Spine[par] || m.levelParamIndex(par) < 0 {
+			return false
+		}
+	}
+	return true
 }
